@@ -39,7 +39,8 @@ def build_menu(w, sc):
     if default != ("none",):
         m.append(("none",))
     # assignments with odd sizes / pools
-    sizes = lambda pool: [(1, r0), (pool.avail_cpu_pool, pool.avail_ram_pool), (pool.avail_cpu_pool + 1, r0), (1, pool.avail_ram_pool + 1), (1, 2 * r0)]
+    sizes = lambda pool: [(1, r0), (pool.avail_cpu_pool, pool.avail_ram_pool), (pool.avail_cpu_pool + 1, r0), (1, pool.avail_ram_pool + 1), (1, 2 * r0),
+                          (1.5, r0), (0.5, r0 / 2)]       # fractional CPUs / RAM are legal sizes
     opsets = []
     if cands_ready:
         opsets.append(cands_ready[0][1][:1])
@@ -66,6 +67,8 @@ def build_menu(w, sc):
             if pool.avail_cpu_pool >= 1 and pool.avail_ram_pool > 0:
                 m.append(("assign", [[flat[0]], [flat[1]]], [(pid, pool.avail_cpu_pool, 1), (pid, 1, 1)]))
                 if pool.avail_cpu_pool >= 2:
+                    half = pool.avail_cpu_pool / 2 + 0.25
+                    m.append(("assign", [[flat[0]], [flat[1]]], [(pid, half, 1), (pid, pool.avail_cpu_pool - half, 1)]))   # fractional sizes that fit exactly
                     m.append(("assign", [[flat[0]], [flat[1]]], [(pid, 1, pool.avail_ram_pool), (pid, 1, 1)]))
                     m.append(("assign", [[flat[0]], [flat[1]]], [(pid, 1, 1), (pid, 1, 1)]))
     # dependency / lifecycle violations
@@ -89,9 +92,13 @@ def build_menu(w, sc):
                     m.append(("assign", [[op, par]], [(0, 1, r0)]))                    # child before parent in one container
                     m.append(("assign", [[op], [par]], [(0, 1, r0), (0, 1, r0)]))      # child's container listed first
                 break
-        busy = [op for op in ops if op.state().value not in (P, F)]
-        if busy:
-            m.append(("assign", [[busy[0]]], [(0, 1, r0)]))                        # already assigned/running/completed
+        for st_ in (A, R, C, "suspending"):
+            busy = [op for op in ops if op.state().value == st_]
+            if busy:
+                m.append(("assign", [[busy[0]]], [(0, 1, r0)]))                    # already assigned / running / completed / suspending
+                free_ = [q for q in ops if q.state().value in (P, F) and all(pp.state().value == C for pp in q.parents)]
+                if free_ and w.multi:
+                    m.append(("assign", [[free_[0], busy[0]]], [(0, 1, r0)]))      # ... behind a perfectly assignable operator
     # suspensions of anything ever seen
     cids = list(w.key_of_cid)[-4:]
     where = {}
@@ -224,6 +231,12 @@ def scenarios(tier):
     out.append(dict(name="H-zero-tick-child", tps=1, pools=1, cpus=3, ram=8, overcommit=False, multi=True, r0=2,
                     horizon=5 if tier == "quick" else 6,
                     pipelines=[dict(prio="B", arrival=0, parents=[[], [0], []], ops=[[seg(2, 1, 1)], [dict(cpu=0.0, scaling="const", mem=1, read=0)], [seg(1, 1, 1)]])]))
+    # I: a root whose LAST segment is shorter than a tick (it completes in the last tick of its first segment), an
+    # independent root and a child: packings [a, b], [a, b, c], [a] ... in multi-operator containers
+    out.append(dict(name="I-trailing-zero-tick-segment", tps=1, pools=1, cpus=3, ram=8, overcommit=False, multi=True, r0=2,
+                    horizon=5 if tier == "quick" else 6,
+                    pipelines=[dict(prio="B", arrival=0, parents=[[], [], [0]],
+                                    ops=[[seg(2, 1, 1), dict(cpu=0.4, scaling="const", mem=1, read=0)], [seg(1, 1, 1)], [seg(1, 1, 1)]])]))
     # D: large allocations so that write-outs take several ticks; tiny ones so they take 0/1
     out.append(dict(name="D-long-writeout", tps=2, pools=1, cpus=4, ram=64, overcommit=False, multi=True, r0=32,
                     horizon=8 if tier == "quick" else 10,
